@@ -4,7 +4,7 @@ CONSTANTS
   Bug = {}
   Families = {"frame","pass","typed","ad","hs","blob","text","watch"}
   Modes = {"plain","enc"}
-  ExprMax = 2
+  ExprMax = 1
   TokLen = 3
 INVARIANTS TypeOK NoPanic Bounded CapHonoured CapFails EmitScn
 CHECK_DEADLOCK FALSE
